@@ -1,6 +1,7 @@
 package sim
 
 import (
+	"os"
 	"bufio"
 	"fmt"
 	"io"
@@ -81,6 +82,9 @@ func (r *Runner) Exec(line string) error {
 	if err != nil {
 		return err
 	}
+	// the operation about to be executed, on stderr: if it never answers (a loop that does not end), the driver
+	// that kills this process after its time limit can name the operation
+	fmt.Fprintln(os.Stderr, "X "+line)
 	switch op.Kind {
 	case "init":
 		r.Cfg.ApplyInit(op)
